@@ -43,6 +43,10 @@ var (
 	ChunkTick = transport.VerifChunkTick
 	// SetChunkTimers overrides gc interval and timeout.
 	SetChunkTimers = transport.VerifSetChunkTimers
+	// SetChunkValidate switches the receiver's validator use.
+	SetChunkValidate = transport.VerifSetChunkValidate
+	// NewChunkWriterBS is NewChunkWriter with a chosen block size.
+	NewChunkWriterBS = rsm.VerifNewChunkWriter
 	// ChunkTimers returns gc interval and timeout.
 	ChunkTimers = transport.VerifChunkTimers
 	// SetSnapshotChunkSize overrides the sender chunk size.
